@@ -37,3 +37,7 @@ def gen(ctx):
 
 def run(ctx):
     return schedcase.check(ctx, "C03")
+
+
+def search(ctx, res, broken):
+    schedcase.search(ctx, "C03", res, broken)
